@@ -1,5 +1,7 @@
 import SSV.Proofs.StatsSeq
+import SSV.Proofs.StatsFuel
 import SSV.Proofs.StatsLock
+import SSV.Proofs.StatsRefine
 /-
 C14 — Traffic statistics neither lose nor invent traffic and charge the right user.
 
@@ -144,6 +146,32 @@ theorem userCollector_creates_once (entry : Option Nat) (n : Nat) (cfg : StatsLo
 
 example : StatsLock.LReach userCollector (StatsLock.linit none 3) (StatsLock.linit none 3) := StatsLock.LReach.refl _
 
+/-- **Refinement of the lock level by the counter level.** In every configuration reachable in the lock-level
+model (any number of callers of `userCollector(u)`, snapshots taking and releasing the read lock as
+environment), each statement a caller executes is either invisible through the abstraction
+(`absShared`: "the user collector exists" = "the map has an entry", `readers` = snapshots holding the read
+lock; `absStage`: program point ↦ `lookup | create | run`) or is EXACTLY the step the counter-level model's
+`CollectTh.step` takes from the corresponding stage — including its enabling condition (`create` only while no
+snapshot holds the read lock). A caller starts in the stage a fresh Collect* thread for a named user starts in.
+Hence every lock-level run of the collector selection projects onto a run of the stage machine used by
+`conservation` / `attribution`. -/
+theorem userCollector_refines (u : String) (v : Visit) (entry : Option Nat) (n : Nat)
+    (pre post : List StatsLock.LThread) (th th' : StatsLock.LThread) (sh sh' : StatsLock.LShared)
+    (hr : StatsLock.LReach userCollector (StatsLock.linit entry n) ⟨sh, pre ++ th :: post⟩)
+    (h : StatsLock.lstep userCollector sh th = some (sh', th')) :
+    ((StatsLock.absShared u sh' = StatsLock.absShared u sh ∧ StatsLock.absStage th' = StatsLock.absStage th) ∨
+      CollectTh.step (StatsLock.absShared u sh) (StatsLock.absThread u v th)
+        = some (StatsLock.absShared u sh', StatsLock.absThread u v th')) ∧
+    StatsLock.absStage { pc := 0, uc := none } = CStage.lookup ∧
+    (u ≠ "" → ∀ c x0 x1, (mkCollect c u x0 x1).stage = CStage.lookup) := by
+  have hb := StatsLock.reach_both hr (StatsLock.linit_inv entry n) (StatsLock.linit_rinv entry n)
+  refine ⟨StatsLock.refines u v pre post th th' sh sh' h hb.1 hb.2, by simp [StatsLock.absStage], ?_⟩
+  intro hu c x0 x1
+  simp [mkCollect, anonymousUsername, hu]
+
+example : StatsLock.LReach userCollector (StatsLock.linit none 2)
+    ⟨(StatsLock.linit none 2).sh, [] ++ { pc := 0, uc := none } :: [{ pc := 0, uc := none }]⟩ := StatsLock.LReach.refl _
+
 /-- **A Snapshot at quiescence reads the counters.** Started on shared state `sh` with no other thread
 running, a Snapshot — whatever order `range sc.ucs` yields — leaves every counter unchanged and, once finished,
 has obtained for the anonymous collector and for EVERY existing user collector exactly the current counter
@@ -176,6 +204,22 @@ theorem driver_run_is_interleaving (n : Nat) (sh : Shared) :
     (∀ (c : Call) (u : String) (x0 x1 : Nat), Reach ⟨sh, [.collect (mkCollect c u x0 x1)]⟩
         ⟨(runCollect n sh (mkCollect c u x0 x1)).1, [.collect (runCollect n sh (mkCollect c u x0 x1)).2]⟩) :=
   ⟨fun reset => runSnap_reach n sh (mkSnap reset), fun c u x0 x1 => runCollect_reach n sh (mkCollect c u x0 x1)⟩
+
+/-- **The driver's Snapshot always completes, and at quiescence it is exact.** The fuel `doSnapshot` gives a
+lone Snapshot / SnapshotAndReset thread suffices for every shared state (any number of user collectors): the
+run ends in phase `finished`; and the plain Snapshot leaves the counters unchanged and returns, for the
+anonymous collector and every existing user, exactly the counters. So `final_snapshot_reads_counters` applies
+to the very function the correspondence engine compares with the real collector. -/
+theorem doSnapshot_exact (sh : Shared) :
+    (∀ reset : Bool, (runSnap (snapFuel sh) sh (mkSnap reset)).2.phase = .finished) ∧
+    (runSnap (snapFuel sh) sh (mkSnap false)).1.ctr = sh.ctr ∧
+    (∀ e ∈ (runSnap (snapFuel sh) sh (mkSnap false)).2.done, ∀ f, e.2.get f = (sh.ctr e.1).get f) ∧
+    Target.anon ∈ (runSnap (snapFuel sh) sh (mkSnap false)).2.done.map Prod.fst ∧
+    (∀ u ∈ sh.names, Target.user u ∈ (runSnap (snapFuel sh) sh (mkSnap false)).2.done.map Prod.fst) := by
+  have hfin : ∀ reset : Bool, (runSnap (snapFuel sh) sh (mkSnap reset)).2.phase = .finished :=
+    fun reset => runSnap_finishes _ sh _ (fuel_suffices sh reset)
+  have h := final_snapshot_reads_counters sh ⟨_, [.snap _]⟩ (runSnap_reach (snapFuel sh) sh (mkSnap false)) _ rfl (hfin false)
+  exact ⟨hfin, h.1, h.2.1, h.2.2.1, h.2.2.2⟩
 
 /-! ### API projections -/
 
@@ -244,7 +288,9 @@ end SSV.C14
 #print axioms SSV.C14.total_is_sum
 #print axioms SSV.C14.attribution
 #print axioms SSV.C14.userCollector_creates_once
+#print axioms SSV.C14.userCollector_refines
 #print axioms SSV.C14.final_snapshot_reads_counters
 #print axioms SSV.C14.driver_run_is_interleaving
+#print axioms SSV.C14.doSnapshot_exact
 #print axioms SSV.C14.api_exact
 #print axioms SSV.C14.lookupUser_exact
